@@ -728,6 +728,29 @@ func errTest(ifi *ssa.If, branch bool) (call *ssa.Call, resIdx int, isNil bool, 
 	return nil, 0, false, false
 }
 
+// errTestOf: ifi tests `err ==/!= nil` where err is (possibly through phis, as when several calls share one test) the
+// error result of the call want; isNil tells whether this branch is the nil one.
+func errTestOf(ifi *ssa.If, branch bool, want ssa.Instruction) (isNil bool, ok bool) {
+	c := condOn(ifi, branch)
+	if c.Op != token.EQL && c.Op != token.NEQ {
+		return false, false
+	}
+	var other ssa.Value
+	if isNilConst(c.Y) {
+		other = c.X
+	} else if isNilConst(c.X) {
+		other = c.Y
+	} else {
+		return false, false
+	}
+	for _, cand := range phiInputs(other) {
+		if call, _ := callOf(cand); call != nil && ssa.Instruction(call) == want {
+			return c.Op == token.EQL, true
+		}
+	}
+	return false, false
+}
+
 // phiInputs expands phis (one level deep repeatedly) into their leaf inputs; non-phi values yield themselves.
 func phiInputs(v ssa.Value) []ssa.Value {
 	var out []ssa.Value
